@@ -97,6 +97,107 @@ def lit(b: bytes) -> bytes:
     return b'{%d+}\r\n' % len(b) + b
 
 
+def _utf7(name: str) -> bytes:     # independent modified UTF-7 encoder
+    out = bytearray()
+    run_ = ''
+    for ch in name + '\0END':
+        if ch != '\0' and not (0x20 <= ord(ch) <= 0x7e):
+            run_ += ch
+            continue
+        if run_:
+            import base64
+            out += b'&' + base64.b64encode(run_.encode('utf-16-be')).rstrip(b'=').replace(b'/', b',') + b'-'
+            run_ = ''
+        if ch == '\0':
+            break
+        out += b'&-' if ch == '&' else ch.encode()
+    return bytes(out)
+
+
+def _mailbox_cmds(name: bytes) -> tuple:
+    return (b'CREATE ' + lit(name), b'LIST "" *', b'LSUB "" *', b'SUBSCRIBE ' + lit(name),
+            b'LSUB "" *', b'STATUS ' + lit(name) + b' (MESSAGES UIDNEXT)',
+            b'SELECT ' + lit(name), b'DELETE ' + lit(name))
+
+
+def _header_cmds(val: bytes, hv: bytes) -> tuple:
+    msg = (b'Subject: ' + hv + b'\r\nFrom: "' + hv.replace(b'"', b'') + b'" <a@b>\r\nTo: ' + hv +
+           b'\r\nMessage-Id: ' + hv + b'\r\nIn-Reply-To: ' + hv +
+           b'\r\nContent-Type: text/plain; charset="' + hv.replace(b'"', b'') + b'"; name=' + hv +
+           b'\r\nContent-Disposition: attachment; filename="' + hv.replace(b'"', b'') +
+           b'"\r\nContent-Description: ' + hv + b'\r\nContent-Id: ' + hv +
+           b'\r\nContent-Language: ' + hv + b'\r\nContent-Location: ' + hv + b'\r\n\r\nbody\r\n')
+    return (b'APPEND INBOX ' + lit(msg), b'SELECT INBOX',
+            b'FETCH * (ENVELOPE BODYSTRUCTURE BODY)', b'FETCH * (BODY.PEEK[HEADER.FIELDS (SUBJECT)])',
+            b'SEARCH SUBJECT ' + lit(val.replace(b'\x00', b'')) if val.replace(b'\x00', b'') else b'NOOP',
+            b'STORE * +FLAGS (\\Deleted)', b'CLOSE')
+
+
+def _shape_cmds(msg: bytes) -> tuple:
+    return (b'APPEND INBOX ' + lit(msg), b'SELECT INBOX', b'FETCH * (BODYSTRUCTURE BODY ENVELOPE)',
+            b'FETCH * (BODY.PEEK[1] BODY.PEEK[1.MIME] BODY.PEEK[2.HEADER] BODY.PEEK[2.1.1])', b'CLOSE')
+
+
+def replay(path: str) -> int:
+    """Repeat the recorded execution: a campaign work item (judged by TLC as in C06), a value
+    pushed through a serialiser, or a value / message echoed by a fresh server."""
+    import json
+    rec = json.load(open(path))
+    rep = rec['replay']
+    if rep.get('item') is not None:
+        return c06.replay(path, 'C07_')
+    part = rep.get('part')
+    if part == 'serialiser':
+        from pymap.parsing.primitives import String
+        from pymap.parsing.specials import AString
+        val = rep['value'].encode('latin1')
+        try:
+            wire = bytes(String.build(val)) if rep['how'].startswith('String') else bytes(AString(val))
+            got = parse_string(wire, astring=rep['how'] == 'AString')
+        except rp.Malformed as exc:
+            print(f'REPRODUCED: {rep["how"]} of {val!r} wrote bytes the grammar rejects: {exc.why}')
+            return 1
+        gotv = b'' if got is rp.NIL else got.value
+        print(f'{rep["how"]} of {val!r} wrote {wire!r} -> {gotv!r}')
+        if gotv != val:
+            print('REPRODUCED: the value does not come back')
+            return 1
+        print('NOT REPRODUCED')
+        return 0
+    if part in ('echo', 'mime-shape'):
+        backend = rep.get('backend', 'dict')
+        w = World(backend, demo=False)
+        w.connect('a').take()
+        w.login('a')
+        if part == 'mime-shape':
+            cmds = _shape_cmds(rep['message'].encode('latin1'))
+        else:
+            val = rep['value'].encode('latin1')
+            if rep.get('slot') == 'mailbox':
+                import codecs  # noqa: F401
+                cmds = _mailbox_cmds(_utf7(val.decode('latin1')))
+            else:
+                cmds = _header_cmds(val, val.replace(b'\n', b'\n '))
+        status = 0
+        for cmd in cmds:
+            out = w.cmd('a', cmd)
+            bad = rp.check_wellformed(out)
+            print(cmd[:70], '->', out[-200:])
+            if bad:
+                pos, why = bad
+                print(f'REPRODUCED: {why}: ...{out[max(0, pos - 50):pos + 50]!r}')
+                status = 1
+                break
+            if w.conns['a'].done:
+                break
+        w.close()
+        if not status:
+            print('NOT REPRODUCED')
+        return status
+    print('unknown replay payload')
+    return 2
+
+
 def check_out(run, out: bytes, what: str, replay: dict, sig=None) -> bool:
     bad = rp.check_wellformed(out)
     if bad:
@@ -123,21 +224,7 @@ def echo_part(run, rng, quick):
     vals = vals[:250 if quick else 4000]
     import codecs
 
-    def utf7(name: str) -> bytes:     # independent modified UTF-7 encoder
-        out = bytearray()
-        run_ = ''
-        for ch in name + '\0END':
-            if ch != '\0' and not (0x20 <= ord(ch) <= 0x7e):
-                run_ += ch
-                continue
-            if run_:
-                import base64
-                out += b'&' + base64.b64encode(run_.encode('utf-16-be')).rstrip(b'=').replace(b'/', b',') + b'-'
-                run_ = ''
-            if ch == '\0':
-                break
-            out += b'&-' if ch == '&' else ch.encode()
-        return bytes(out)
+    utf7 = _utf7
 
     for backend in ('dict', 'maildir'):
         if backend == 'maildir' and quick:
@@ -167,9 +254,7 @@ def echo_part(run, rng, quick):
             if 'NUL' not in v and not (backend == 'maildir' and ({'CR', 'LF'} & set(v) or long)):
                 name = utf7(val.decode('latin1'))
                 ok = True
-                for cmd in (b'CREATE ' + lit(name), b'LIST "" *', b'LSUB "" *', b'SUBSCRIBE ' + lit(name),
-                            b'LSUB "" *', b'STATUS ' + lit(name) + b' (MESSAGES UIDNEXT)',
-                            b'SELECT ' + lit(name), b'DELETE ' + lit(name)):
+                for cmd in _mailbox_cmds(name):
                     out = w.cmd('a', cmd)
                     ok = check_out(run, out, f'{backend} mailbox name {val!r} echoed by {cmd[:12]!r}',
                                    dict(rep, slot='mailbox', cmd=cmd.decode('latin1'))) and ok
@@ -183,17 +268,8 @@ def echo_part(run, rng, quick):
             hv = val.replace(b'\n', b'\n ')       # keep it one (folded) header
             if b'\x00' in hv:
                 continue
-            msg = (b'Subject: ' + hv + b'\r\nFrom: "' + hv.replace(b'"', b'') + b'" <a@b>\r\nTo: ' + hv +
-                   b'\r\nMessage-Id: ' + hv + b'\r\nIn-Reply-To: ' + hv +
-                   b'\r\nContent-Type: text/plain; charset="' + hv.replace(b'"', b'') + b'"; name=' + hv +
-                   b'\r\nContent-Disposition: attachment; filename="' + hv.replace(b'"', b'') +
-                   b'"\r\nContent-Description: ' + hv + b'\r\nContent-Id: ' + hv +
-                   b'\r\nContent-Language: ' + hv + b'\r\nContent-Location: ' + hv + b'\r\n\r\nbody\r\n')
             ok = True
-            for cmd in (b'APPEND INBOX ' + lit(msg), b'SELECT INBOX',
-                        b'FETCH * (ENVELOPE BODYSTRUCTURE BODY)', b'FETCH * (BODY.PEEK[HEADER.FIELDS (SUBJECT)])',
-                        b'SEARCH SUBJECT ' + lit(val.replace(b'\x00', b'')) if val.replace(b'\x00', b'') else b'NOOP',
-                        b'STORE * +FLAGS (\\Deleted)', b'CLOSE'):
+            for cmd in _header_cmds(val, hv):
                 out = w.cmd('a', cmd)
                 ok = check_out(run, out, f'{backend} header value {val!r} echoed by {cmd[:24]!r}',
                                dict(rep, slot='header', cmd=cmd[:60].decode('latin1'))) and ok
@@ -221,8 +297,7 @@ def echo_part(run, rng, quick):
     w.login('a')
     for i, msg in enumerate(shapes):
         ok = True
-        for cmd in (b'APPEND INBOX ' + lit(msg), b'SELECT INBOX', b'FETCH * (BODYSTRUCTURE BODY ENVELOPE)',
-                    b'FETCH * (BODY.PEEK[1] BODY.PEEK[1.MIME] BODY.PEEK[2.HEADER] BODY.PEEK[2.1.1])', b'CLOSE'):
+        for cmd in _shape_cmds(msg):
             out = w.cmd('a', cmd)
             ok = check_out(run, out, f'MIME shape {i} echoed by {cmd[:30]!r}',
                            {'check': 'C07', 'part': 'mime-shape', 'message': msg.decode('latin1'),
